@@ -225,9 +225,69 @@ def observe(like):
         return w
 
     rec["flag_before"] = bool(like.rescale)
+    wrappers = {f: wrap(f) for f in FUNCS}
+    by_id = {id(saved[f]): wrappers[f] for f in FUNCS}
+    undo = []  # (container, key, old value): function objects captured at import time in module-level tables
+
+    def rebuild(obj, depth=0):
+        """copy of a tuple / NamedTuple with known kernels replaced by their wrappers (None if nothing to replace)"""
+        if depth > 3 or not isinstance(obj, tuple):
+            return None
+        items, changed = [], False
+        for x in obj:
+            if callable(x) and id(x) in by_id:
+                items.append(by_id[id(x)])
+                changed = True
+            else:
+                sub = rebuild(x, depth + 1)
+                items.append(sub if sub is not None else x)
+                changed = changed or sub is not None
+        if not changed:
+            return None
+        return type(obj)(*items) if hasattr(obj, "_fields") else tuple(items)
+
+    def patch_container(c, depth=0):
+        if depth > 3:
+            return
+        if isinstance(c, dict):
+            keys = list(c.keys())
+        elif isinstance(c, list):
+            keys = list(range(len(c)))
+        else:
+            return
+        for k in keys:
+            v = c[k]
+            if callable(v) and id(v) in by_id:
+                undo.append((c, k, v))
+                c[k] = by_id[id(v)]
+            elif isinstance(v, tuple):
+                nv = rebuild(v)
+                if nv is not None:
+                    undo.append((c, k, v))
+                    c[k] = nv
+            elif isinstance(v, (dict, list)):
+                patch_container(v, depth + 1)
+
     try:
         for f in FUNCS:
-            setattr(TL, f, wrap(f))
+            setattr(TL, f, wrappers[f])
+        for mod_name in {TL.__name__} | {getattr(saved[f], "__module__", TL.__name__) for f in FUNCS}:
+            mod = sys.modules.get(mod_name)
+            if mod is None:
+                continue
+            for gname, gval in list(vars(mod).items()):
+                if gname.startswith("__"):
+                    continue
+                if isinstance(gval, (dict, list)):
+                    patch_container(gval)
+                elif isinstance(gval, tuple):
+                    nv = rebuild(gval)
+                    if nv is not None:
+                        undo.append((vars(mod), gname, gval))
+                        setattr(mod, gname, nv)
+                elif callable(gval) and id(gval) in by_id and gname not in FUNCS:
+                    undo.append((vars(mod), gname, gval))
+                    setattr(mod, gname, by_id[id(gval)])
         try:
             if hasattr(like, "_call"):
                 v = like._call()
@@ -240,6 +300,8 @@ def observe(like):
     finally:
         for f, r in saved.items():
             setattr(TL, f, r)
+        for c, k, v in reversed(undo):
+            c[k] = v
     rec["flag_after"] = bool(like.rescale)
     return rec
 
@@ -685,6 +747,11 @@ def eval_and_check(ck, drv, h: Hist, label, refs, fails, want_mp=False, group="s
         fails.append(dict(info, kind="raised", error=rec["error"], sites=cfg["sites"]))
         ck.case(key=(label, json.dumps(info["cfg"], sort_keys=True)), bucket="sweep/raised")
         return rec
+    if "mats" not in rec:  # the kernels were not observed (called through a route the harness cannot wrap)
+        ck.mismatch("kernel arguments not observed (harness could not intercept the likelihood kernels): evaluation skipped",
+                    {"label": label, "cfg": info["cfg"]})
+        ck.case(key=(label, json.dumps(info["cfg"], sort_keys=True), "unobserved"), bucket=f"{group}/unobserved")
+        return rec
     v = rec["value"]
     batch = cfg.get("batch")
     want_n = len(batch) if batch else 1
@@ -756,7 +823,7 @@ def per_taxon_log(drv, cfg0):
     cfg["sites"] = cfg0["sites"][:64]
     b = build_model(cfg)
     rec = observe(b.like)
-    if "error" in rec:
+    if "error" in rec or "mats" not in rec:
         return None
     tot, logs = reference(drv, b.like, rec["mats"], rec["freqs"], rec["props"], None)
     if tot is None:
@@ -864,7 +931,7 @@ def site_logs_at(drv, cfg):
     """exact per-site log-likelihoods of a scratch model (used to tune the branch length; not counted as a case)"""
     b = build_model(cfg)
     rec = observe(b.like)
-    if "error" in rec:
+    if "error" in rec or "mats" not in rec:
         return None
     tot, logs = reference(drv, b.like, rec["mats"], rec["freqs"], rec["props"], None)
     return logs if tot is not None else None
@@ -1370,6 +1437,9 @@ def float32_sweep(ck: Check, drv, budget_s: float):
                     rec = h.evaluate()
                 _DTYPE["name"] = built_under
                 name = f"dtype/built-{built_under}/run-{run_under}/{'tip-states' if tipst else 'tip-partials'}"
+                if "error" not in rec and "mats" not in rec:
+                    ck.mismatch("kernel arguments not observed: dtype-regime evaluation skipped", {"regime": name})
+                    continue
                 if "error" in rec:
                     ck.bucket(name + "/raised")
                     record_fail(fails, "raised", cfg, name, error=rec["error"], calls=rec["calls"])
